@@ -428,6 +428,16 @@ fn run(a: &vhcore::Args) -> i32 {
             }
         }
         expected_runs += faults.len() as u64;
+        // pre-flight: one fault of each kind, serially, so that a broken injection mechanism is
+        // reported at once instead of after the whole enumeration
+        for fk in &fault_kinds {
+            if let Some(i) = faults.iter().position(|f| f.kind == *fk) {
+                let r = run_case(&ctx, rk, &pts, &faults[i], None, &format!("preflight-{}", fk.as_str()), false);
+                if let Some(m) = r.machinery {
+                    vhcore::machinery_failure(&format!("pre-flight: {m}"));
+                }
+            }
+        }
         let results: Vec<CaseResult> = vhcore::par_map_idx(faults.len(), a.jobs, |i| {
             run_case(&ctx, rk, &pts, &faults[i], None, &format!("s{i}"), false)
         });
